@@ -188,3 +188,39 @@ def mixed_steps_x(rng, m):
     x = step * (np.arange(m - 1, dtype=float) - j)
     x = np.sort(np.concatenate([x, [step * float(rng.choice([1e-5, 1e-4, 1e-3]))]]))
     return np.asarray(x, dtype=float), "mixed_steps:repeated_poll"
+
+
+def fresh_str(rng, s, p=0.5):
+    """a name argument the way programs have it at hand: the literal itself or, with probability p, an EQUAL string that
+    is a different object - built at run time (read from a configuration file, lower-cased, joined; CPython interns
+    only literals, so identity comparisons with the library's own literals fail for these), a numpy.str_ taken from an
+    array of names, or an instance of a str subclass (enum-like constants)"""
+    if not isinstance(s, str) or rng.uniform() >= p:
+        return s
+    t = int(rng.integers(0, 4))
+    if t == 0:
+        return "".join([c for c in s])              # equal, not interned, not identical to any literal
+    if t == 1:
+        return (" " + s.upper() + " ").strip().lower() if s.islower() else "".join(list(s))
+    if t == 2:
+        return np.array([s, "x"])[0]                # numpy.str_
+    return _Name(s)
+
+
+class _Name(str):
+    """a str subclass, as produced by enum.StrEnum-like constants"""
+    __slots__ = ()
+
+
+def index_arg(rng, k, p=0.35):
+    """an index the way callers have it at hand: a Python int or a NumPy integer scalar (np.argmax, np.searchsorted and
+    loops over np.arange produce those); unsigned types only for non-negative values"""
+    k = int(k)
+    if rng.uniform() >= p:
+        return k
+    types = [np.int64, np.int32, np.intp, np.int16] + ([np.uint8, np.uint16, np.uint32, np.uint64] if k >= 0 else [])
+    for _ in range(8):
+        t = types[int(rng.integers(0, len(types)))]
+        if np.iinfo(t).min <= k <= np.iinfo(t).max:
+            return t(k)
+    return k
